@@ -140,6 +140,13 @@ def send_terminates(ctx):
     return z3.BoolVal(len(written(buf)) >= 1)
 
 
+def second_engine(ctx):
+    """CrossHair on VarInt.size (second opinion, see xcheck/)"""
+    from .common import crosshair_opinion
+    note_key(ctx, 'C03:second_engine')
+    return crosshair_opinion(ctx, 'xcheck/ch_varint_size.py', 60)
+
+
 def instances(tier, seed):
     out = [
         Instance('read_any:VarInt', 'read_any', {'cls': 'VarInt'}, W=96,
@@ -150,6 +157,9 @@ def instances(tier, seed):
                  budget_s=300, max_decisions=400),
         Instance('send_terminates', 'send_terminates', {}, W=96,
                  budget_s=300, max_decisions=64, conc_timeout_s=5),
+        Instance('second_engine:crosshair', 'second_engine', {}, W=96,
+                 budget_s=400, conc_timeout_s=5,
+                 note='independent engine on VarInt.size; not deciding'),
         Instance('sentinel:read_any', 'read_any',
                  {'cls': 'VarInt', 'sentinel': True}, W=96, budget_s=300,
                  expect='violation', max_decisions=400,
